@@ -2298,14 +2298,13 @@ class BaseDocReader(LogMixin):
 
             filename = variableFontElement.get("filename")
 
+            # The writer omits the axis-subsets element when the descriptor has
+            # no axis subsets.
             axisSubsetsElement = variableFontElement.find(".axis-subsets")
-            if axisSubsetsElement is None:
-                raise DesignSpaceDocumentError(
-                    "variable-font element must contain an axis-subsets element."
-                )
             axisSubsets = []
-            for axisSubset in axisSubsetsElement.iterfind(".axis-subset"):
-                axisSubsets.append(self.readAxisSubset(axisSubset))
+            if axisSubsetsElement is not None:
+                for axisSubset in axisSubsetsElement.iterfind(".axis-subset"):
+                    axisSubsets.append(self.readAxisSubset(axisSubset))
 
             lib = None
             libElement = variableFontElement.find(".lib")
@@ -2359,23 +2358,16 @@ class BaseDocReader(LogMixin):
             userMinimum = element.get("userminimum")
             userDefault = element.get("userdefault")
             userMaximum = element.get("usermaximum")
-            if (
-                userMinimum is not None
-                and userDefault is not None
-                and userMaximum is not None
-            ):
-                return self.rangeAxisSubsetDescriptorClass(
-                    name=name,
-                    userMinimum=float(userMinimum),
-                    userDefault=float(userDefault),
-                    userMaximum=float(userMaximum),
-                )
-            if all(v is None for v in (userMinimum, userDefault, userMaximum)):
-                return self.rangeAxisSubsetDescriptorClass(name=name)
-
-            raise DesignSpaceDocumentError(
-                "axis-subset element must have min/max/default values or none at all."
-            )
+            # Each of the three attributes is optional on its own (the writer
+            # leaves out the ones that have their default value).
+            kwargs = {}
+            if userMinimum is not None:
+                kwargs["userMinimum"] = float(userMinimum)
+            if userDefault is not None:
+                kwargs["userDefault"] = float(userDefault)
+            if userMaximum is not None:
+                kwargs["userMaximum"] = float(userMaximum)
+            return self.rangeAxisSubsetDescriptorClass(name=name, **kwargs)
 
     def readSources(self):
         for sourceCount, sourceElement in enumerate(
